@@ -129,7 +129,9 @@ def eval_case(case, want, dtypes=("float64", "float32"), variant=0):
                 if bool((ly[1:] <= ly[:-1]).any()):
                     i = int((ly[1:] <= ly[:-1]).nonzero()[0])
                     add("not_monotone", "not strictly increasing between lattice points %s and %s" % (ins[i][0], ins[i + 1][0]), **tag)
-                if float(gy_d.min()) < bottom or float(gy_d.max()) > top:
+                # the box as this dtype holds it (a bound like 1.1 is stored rounded)
+                bot_dt, top_dt = float(torch.tensor(bottom, dtype=dt)), float(torch.tensor(top, dtype=dt))
+                if float(gy_d.min()) < min(bottom, bot_dt) or float(gy_d.max()) > max(top, top_dt):
                     i = int((gy_d - top).argmax()) if float(gy_d.max()) > top else int(gy_d.argmin())
                     add("leaves_box", "f(%.17g) = %.17g outside [%s, %s]" % (float(g[i]), float(gy[i]), bottom, top), **tag)
                 tol_end = 4 * ulp(torch, max(abs(top), abs(bottom), 1e-30), dt)
